@@ -103,17 +103,23 @@ fn scenarios(thorough: bool) -> Vec<Scn> {
         if !thorough && ks.contains(&Kind::NotDir) && (ks.contains(&Kind::Missing) || ks.len() > 2) {
             continue;
         }
-        for check in [true, false] {
+        for (check, fmt) in [(true, "Summary"), (false, "Standard"), (true, "Json"), (false, "Json")] {
             for nt in [1usize, 4] {
                 if !thorough && !check && nt == 1 {
+                    continue;
+                }
+                // the JSON format reports errors through other code: lists of two entries in the quick tier
+                if fmt == "Json" && !thorough && (nt == 1 || ks.len() > 2) {
                     continue;
                 }
                 let mut tree = Tree::default();
                 let mut argv: Vec<String> = vec!["--color".into(), "Never".into(), "--num-threads".into(), nt.to_string()];
                 if check {
                     argv.push("--check".into());
+                }
+                if fmt != "Standard" {
                     argv.push("--output-format".into());
-                    argv.push("Summary".into());
+                    argv.push(fmt.into());
                 }
                 let mut want_files = BTreeMap::new();
                 for (i, k) in ks.iter().enumerate() {
@@ -142,7 +148,7 @@ fn scenarios(thorough: bool) -> Vec<Scn> {
                 let any_diff = ks.iter().any(|k| *k == Kind::Unformatted);
                 let want_code = if any_fail { 2 } else if check && any_diff { 1 } else { 0 };
                 v.push(Scn {
-                    desc: format!("C19 entries={} mode={} threads={}", ks.iter().map(|k| k.letter()).collect::<String>(), if check { "check" } else { "write" }, nt),
+                    desc: format!("C19 entries={} mode={}{} threads={}", ks.iter().map(|k| k.letter()).collect::<String>(), if check { "check" } else { "write" }, if fmt == "Json" { "+json" } else { "" }, nt),
                     tree,
                     argv,
                     want_code,
